@@ -2,6 +2,7 @@ import Driver.Util
 import Driver.C02
 import Driver.C10
 import Driver.C08
+import Driver.C12
 /-
   kdriver: one request per line on stdin, `model<TAB>spec` per line on stdout.
   Anything it cannot parse is answered `bad-op<TAB>bad-op` (never a default value).
@@ -17,6 +18,7 @@ def dispatch (line : String) : String :=
       if op.startsWith "s." then Driver.C02.handle (op.drop 2).toString args
       else if op == "chain" then Driver.C10.handle args
       else if op.startsWith "it." then Driver.C08.handle (op.drop 3).toString args
+      else if op.startsWith "pi." then Driver.C12.handle (op.drop 3).toString args
       else none
   match r with
   | some (m, s) => m ++ "\t" ++ s
